@@ -443,6 +443,63 @@ theorem prims_symmetric (width height a b c s x y : K) :
 
 end prims
 
+/-! ## keystone apertures: rings and sectors are disjoint (strict inequalities on disjoint intervals) -/
+section keystone
+variable {K : Type} [Field K] [LinearOrder K] [IsStrictOrderedRing K]
+
+/-- the keystone glue of `_composite_keystone_aperture` is the model's: ring radii recurrence, `arc & ang_mask` -/
+theorem gen_keystone (outerPrev gap inner width rin rout lo hi r t : K) :
+    Generated.C18.keyInner outerPrev gap = keyInner outerPrev gap ∧ Generated.C18.keyOuter inner width = keyOuter inner width ∧
+    (Generated.C18.keySector rin rout lo hi r t ↔ keySector rin rout lo hi r t) := by
+  refine ⟨by first | rfl | simp only [Generated.C18.keyInner, keyInner], by first | rfl | simp only [Generated.C18.keyOuter, keyOuter],
+    Iff.rfl⟩
+
+/-- a keystone sector is `rin < r ≤ rout ∧ lo < t < hi` (the XOR of the two discs, when `rin ≤ rout`), and the ring radii
+follow `inner = previous outer + gap`, `outer = inner + width` -/
+theorem keystone_sector_iff (rin rout lo hi r t : K) (h : rin ≤ rout) :
+    Generated.C18.keySector rin rout lo hi r t ↔ (rin < r ∧ r ≤ rout) ∧ (lo < t ∧ t < hi) := by
+  simp only [Generated.C18.keySector, Model.C18.keySector, not_le, gt_iff_lt]
+  constructor
+  · rintro ⟨h1 | h1, h2⟩
+    · exact absurd (lt_of_lt_of_le h1.2 (le_trans h1.1 h)) (lt_irrefl _)
+    · exact ⟨h1, h2⟩
+  · rintro ⟨h1, h2⟩
+    exact ⟨Or.inr h1, h2⟩
+
+/-- two sectors of the same ring whose angular intervals do not overlap (`hi ≤ lo'`: consecutive segments share the
+bound `angle + arc`) have no common point — the strict inequalities exclude the shared ray itself -/
+theorem keystone_sectors_disjoint (rin rout lo hi lo' hi' r t : K) (hord : hi ≤ lo') :
+    ¬ (Generated.C18.keySector rin rout lo hi r t ∧ Generated.C18.keySector rin rout lo' hi' r t) := by
+  simp only [Generated.C18.keySector, Model.C18.keySector, gt_iff_lt]
+  rintro ⟨⟨_, _, h2⟩, ⟨_, h3, _⟩⟩
+  exact absurd (lt_of_lt_of_le h2 hord) (not_lt.mpr h3.le)
+
+/-- sectors of different rings are disjoint for every positive radial gap and ring width, and the central disc
+`r ≤ R₀` is disjoint from the first ring (`rin = R₀ + gap`) -/
+theorem keystone_rings_disjoint (outerPrev gap width width' gap' lo hi lo' hi' r t : K)
+    (hg : 0 < gap) (hg' : 0 < gap') (hw : 0 ≤ width) (hw' : 0 ≤ width') :
+    let rin := Generated.C18.keyInner outerPrev gap
+    let rout := Generated.C18.keyOuter rin width
+    let rin' := Generated.C18.keyInner rout gap'
+    let rout' := Generated.C18.keyOuter rin' width'
+    ¬ (Generated.C18.keySector rin rout lo hi r t ∧ Generated.C18.keySector rin' rout' lo' hi' r t) ∧
+    ¬ (Generated.C18.circle outerPrev r ∧ Generated.C18.keySector rin rout lo hi r t) := by
+  intro rin rout rin' rout'
+  have e1 : rin = outerPrev + gap := by simp only [rin, Generated.C18.keyInner, Model.C18.keyInner]
+  have e2 : rout = rin + width := by simp only [rout, Generated.C18.keyOuter, Model.C18.keyOuter]
+  have e3 : rin' = rout + gap' := by simp only [rin', Generated.C18.keyInner, Model.C18.keyInner]
+  have e4 : rout' = rin' + width' := by simp only [rout', Generated.C18.keyOuter, Model.C18.keyOuter]
+  constructor
+  · rw [keystone_sector_iff _ _ _ _ _ _ (by linarith), keystone_sector_iff _ _ _ _ _ _ (by linarith)]
+    rintro ⟨⟨⟨_, h1⟩, _⟩, ⟨⟨h2, _⟩, _⟩⟩
+    linarith
+  · rw [keystone_sector_iff _ _ _ _ _ _ (by linarith)]
+    simp only [Generated.C18.circle, Model.C18.circle]
+    rintro ⟨h1, ⟨⟨h2, _⟩, _⟩⟩
+    linarith
+
+end keystone
+
 /-! ## non-vacuity -/
 
 /-- `√3` instantiates the hypotheses on `w` -/
